@@ -1352,6 +1352,48 @@ def g_rmtv():
         text += '\n' + emit_function('rmtv_' + field[nm], args, e, comment='field %s (local %s of rmtv_1d), behind the heat front' % (field[nm], nm))
         text += '#[global] Hint Unfold rmtv_%s : epgen.\n' % field[nm]
         js[field[nm]] = {'args': args, 'expr': expr_to_json(e)}
+    # the shock map (Kamm 2000, eq. 15): inside `if (rpos <= rs):` the four pre-shock similarity variables are read from ystart and the
+    # post-shock values are stored back into ystart before the second integration
+    sh = [st for st in behind if isinstance(st, ast.If) and isinstance(st.test, ast.Compare) and getattr(st.test.left, 'id', '') == 'rpos'
+          and isinstance(st.test.ops[0], ast.LtE) and getattr(st.test.comparators[0], 'id', '') == 'rs']
+    if len(sh) != 1:
+        raise Unsupported('rmtv_1d: shock branch `if (rpos <= rs)` not found')
+    reads, stores = {}, {}
+    for st in sh[0].body:
+        if isinstance(st, ast.Assign) and isinstance(st.targets[0], ast.Name) and isinstance(st.value, ast.Subscript) \
+                and getattr(st.value.value, 'id', '') == 'ystart' and isinstance(st.value.slice, ast.Constant) and not stores:
+            reads[st.value.slice.value] = st.targets[0].id
+        elif isinstance(st, ast.Assign) and isinstance(st.targets[0], ast.Subscript) and getattr(st.targets[0].value, 'id', '') == 'ystart' \
+                and isinstance(st.targets[0].slice, ast.Constant):
+            k_ = st.targets[0].slice.value
+            if k_ in stores:
+                raise Unsupported('rmtv_1d: ystart[%d] stored twice in the shock branch' % k_)
+            # a store must not read ystart itself (the pre-shock values are the named locals)
+            if any(isinstance(n_, ast.Name) and n_.id == 'ystart' for n_ in ast.walk(st.value)):
+                raise Unsupported('rmtv_1d: shock map reads ystart after the first store')
+            stores[k_] = st.value
+        elif isinstance(st, ast.Assign) and any(isinstance(n_, ast.Name) and n_.id == 'ystart' for n_ in ast.walk(st.targets[0])) and stores \
+                and not (isinstance(st.value, ast.Subscript)):
+            break                                   # `ystart = soln.y[:, -1]` after the second integration
+        elif isinstance(st, ast.Assign) and isinstance(st.targets[0], ast.Name) and st.targets[0].id == 'ystart':
+            break
+    if sorted(reads) != [0, 1, 2, 3] or sorted(stores) != [0, 1, 2, 3]:
+        raise Unsupported('rmtv_1d: shock map reads %r stores %r' % (sorted(reads), sorted(stores)))
+    pre = [reads[i] for i in range(4)]
+    body = [ast.Assign(targets=[ast.Name(id='z%d' % i, ctx=ast.Store())], value=copy.deepcopy(stores[i])) for i in range(4)]
+    body.append(ast.parse('return (z0, z1, z2, z3)').body[0])
+    fn = ast.FunctionDef(name='rmtv_shockmap', args=ast.arguments(posonlyargs=[], args=[ast.arg(arg=a) for a in pre], kwonlyargs=[], kw_defaults=[], defaults=[]), body=body, decorator_list=[])
+    ast.fix_missing_locations(fn)
+    mod.funcs['rmtv_shockmap'] = fn
+    ret2, _ = translate_function(mod, 'rmtv_shockmap', [(a, a) for a in pre])
+    text += '\n(* the shock map of rmtv_1d (Kamm 2000, eq. 15): post-shock similarity variables stored into ystart[0..3], as functions of the\n   pre-shock values %s = ystart[0..3] *)\n' % ', '.join(pre)
+    js['shockmap_args'] = pre
+    for i, e in enumerate(ret2):
+        args = sorted(free_vars(e))
+        nm_ = 'rmtv_shock_y%d' % i
+        text += emit_function(nm_, args, e, comment='rmtv_1d shock branch: ystart[%d] behind the shock' % i)
+        text += '#[global] Hint Unfold %s : epgen.\n' % nm_
+        js[nm_] = {'args': args, 'expr': expr_to_json(e)}
     # ahead of the heat front: literal constants
     ah = {}
     for st in ahead:
